@@ -53,6 +53,10 @@ type spec struct {
 	// is never synced: its header is valid from the first write on and its
 	// record count field stays 0xFFFFFFFF ("as many as the file holds").
 	Sync string `json:",omitempty"`
+	// Limit: the writer's PRAGMA journal_size_limit ("" = none). With PERSIST
+	// a commit then truncates the zeroed journal to that many bytes, which
+	// may be fewer than a journal header has.
+	Limit string `json:",omitempty"`
 }
 
 var stmtPool = []string{
@@ -101,6 +105,9 @@ func TestC09Crash(t *testing.T) {
 				BigSector:   (k+2*shard)%3 == 0,
 				Sync:        []string{"", "OFF", "NORMAL", "OFF", "", "EXTRA"}[(5*k+shard)%6],
 			}
+			if s.JournalMode == "PERSIST" {
+				s.Limit = []string{"", "10", "", "1", "600", "27", "28", "0"}[(k/3+shard)%8]
+			}
 			n := rapid.IntRange(1, 4).Draw(t, "nstmts")
 			for i := 0; i < n; i++ {
 				s.Stmts = append(s.Stmts, rapid.SampledFrom(stmtPool).Draw(t, "stmt"))
@@ -147,14 +154,18 @@ func runWriter(r *vt.Run, t vt.TB, dir, db string, s spec, k int, torn bool, log
 		if sync == "" {
 			sync = "FULL"
 		}
-		cmd = exec.Command(locks.ToolPath("crashwriter"), target, s.JournalMode, "3", stmtFile, sync)
+		args := []string{target, s.JournalMode, "3", stmtFile, sync}
+		if s.Limit != "" {
+			args = append(args, s.Limit)
+		}
+		cmd = exec.Command(locks.ToolPath("crashwriter"), args...)
 	} else {
 		specFile := filepath.Join(dir, "writer.json")
 		target := db
 		if s.BigSector {
 			target = "file:" + db + "?psow=0"
 		}
-		b, _ := json.Marshal(map[string]interface{}{"path": target, "journal_mode": s.JournalMode, "cache_size": 3, "stmts": s.Stmts, "synchronous": s.Sync})
+		b, _ := json.Marshal(map[string]interface{}{"path": target, "journal_mode": s.JournalMode, "cache_size": 3, "stmts": s.Stmts, "synchronous": s.Sync, "journal_size_limit": s.Limit})
 		os.WriteFile(specFile, b, 0o644)
 		py := os.Getenv("VERIF_PYTHON")
 		if py == "" {
@@ -255,7 +266,11 @@ func run(r *vt.Run, t vt.TB, s spec) {
 	}
 	if s.JournalMode == "PERSIST" {
 		// a journal left behind by an earlier committed transaction
-		init = append(init, oracle.Stmt{SQL: "PRAGMA journal_mode=PERSIST", Fetch: true}, oracle.Stmt{SQL: "INSERT INTO t (b, c) VALUES (0, 'earlier transaction')"})
+		init = append(init, oracle.Stmt{SQL: "PRAGMA journal_mode=PERSIST", Fetch: true})
+		if s.Limit != "" {
+			init = append(init, oracle.Stmt{SQL: "PRAGMA journal_size_limit=" + s.Limit, Fetch: true})
+		}
+		init = append(init, oracle.Stmt{SQL: "INSERT INTO t (b, c) VALUES (0, 'earlier transaction')"})
 	}
 	res, err := env.Create("b", base, s.PageSize, 0, init)
 	sqdb.MustOK(r, t, "base", res, err, len(init)+2)
@@ -347,6 +362,10 @@ func run(r *vt.Run, t vt.TB, s spec) {
 					jstate = "empty"
 				case n == 28 && bytes.Equal(hdr, make([]byte, 28)):
 					jstate = "zero-header"
+				case n < 28 && bytes.Equal(hdr[:n], make([]byte, n)):
+					// what a commit leaves with a journal_size_limit below the
+					// size of a header; SQLite: first byte zero = not hot
+					jstate = "zero-shorter-than-a-header"
 				case n >= 8 && bytes.Equal(hdr[:8], journalMagic):
 					jstate = "magic"
 					mustSucceed = false
@@ -362,6 +381,9 @@ func run(r *vt.Run, t vt.TB, s spec) {
 			r.Count(fmt.Sprintf("sector:%v", map[bool]int{true: 4096, false: 512}[s.BigSector]), 1)
 			r.Count("journal-left:"+jstate, 1)
 			r.Count("synchronous:"+map[bool]string{true: "FULL", false: s.Sync}[s.Sync == ""], 1)
+			if s.Limit != "" {
+				r.Count("journal-size-limit-set", 1)
+			}
 
 			// two copies: one for sqlittle, one for SQLite's own recovery
 			a, b := filepath.Join(dir, "a.sqlite"), filepath.Join(dir, "b.sqlite")
@@ -382,13 +404,15 @@ func run(r *vt.Run, t vt.TB, s spec) {
 			}
 			old, oerr := sqlittle.Open(c)
 			if oerr != nil {
-				r.Harness(t, "open of the base state: %v", oerr)
+				r.Violation(t, cp, "error-without-hot-journal", "journal mode %s, journal_size_limit %q: the database as SQLite left it after its last completed commit (journal file present: %v) does not open: %v", s.JournalMode, s.Limit, baseJournal, oerr)
+				return
 			}
 			// it has only looked at the schema so far (had it read everything,
 			// a small database would be answered from its page cache)
 			if _, err := old.Columns("t"); err != nil {
 				old.Close()
-				r.Harness(t, "read of the base state: %v", err)
+				r.Violation(t, cp, "error-without-hot-journal", "journal mode %s, journal_size_limit %q: the database as SQLite left it after its last completed commit (journal file present: %v) cannot be read: %v", s.JournalMode, s.Limit, baseJournal, err)
+				return
 			}
 			overwrite(work, c)
 			os.Remove(c + "-journal")
@@ -407,7 +431,8 @@ func run(r *vt.Run, t vt.TB, s spec) {
 			}
 			unused, uerr := sqlittle.Open(e)
 			if uerr != nil {
-				r.Harness(t, "open of the base state: %v", uerr)
+				r.Violation(t, cp, "error-without-hot-journal", "journal mode %s, journal_size_limit %q: the database as SQLite left it after its last completed commit (journal file present: %v) does not open: %v", s.JournalMode, s.Limit, baseJournal, uerr)
+				return
 			}
 			overwrite(work, e)
 			os.Remove(e + "-journal")
